@@ -5,6 +5,6 @@ id=$1; d=seeded/$id
 prop=$(python3 -c "import json;m=json.load(open('$d/meta.json'));print(m.get('check', m['property']))")
 tier=$(python3 -c "import json;m=json.load(open('$d/meta.json'));print(m.get('tier','quick'))")
 expect=$(python3 -c "import json;m=json.load(open('$d/meta.json'));print(m.get('expect','caught'))")
-out=$(timeout 3000 tools/mutant.sh /verif/$d/patch.diff --tier $tier $prop 2>&1 | grep -E "exit=|APPLY" | head -1 | cut -c1-200)
+out=$(timeout 3000 tools/mutant.sh /verif/$d/patch.diff --tier $tier $prop 2>&1 | grep -a -E "exit=|APPLY" | head -1 | cut -c1-200)
 if [ "$expect" = not_caught ]; then echo "NEUTRAL $id (no longer a defect, see meta.json) :: $out"; exit 0; fi
 case "$out" in *"exit=1"*) echo "CAUGHT $id by $prop :: $out";; *) echo "MISSED $id by $prop :: $out";; esac
